@@ -281,6 +281,67 @@ def run(ctx):
                                   % (v, hard, mode, order, got.hex()[:40], (rc.varint(len(ref_payload)) + ref_payload).hex()[:40]),
                                   {'release': v, 'order': order, 'hardcore': hard, 'mode': mode},
                                   key={'release': v, 'packet': 'join_game', 'kind': 'accessors', 'order': order})
+    # ONE packet object handed to connections of different releases (re-sent, or built for another connection):
+    # the bytes that leave a connection follow THAT connection's release
+    import minecraft.networking.connection as Cn
+    for name, vals_for in (('keep_alive_sb', lambda v: [5]), ('chat_sb', lambda v: ['hello'])):
+        tab, clsname = rp.PYCRAFT_NAME[name]
+        for start in range(3):
+            seq = [rp.RELEASES[(start * 7 + 11 * k) % len(rp.RELEASES)] for k in range(4)]
+            pkt = None
+            for v in seq:
+                if v in missing_rel or rp.layout(name, v) is None:
+                    continue
+                conn = Cn.Connection('h', 1, username='u', allowed_versions={v})
+                conn.context.protocol_version = v
+                sock = io.BytesIO()
+                sock.send = sock.write
+                conn.socket = sock
+                cls = next((c for c in tabs[tab].get_packets(conn.context) if c.__name__ == clsname), None)
+                if cls is None:
+                    continue
+                if pkt is None:
+                    pkt = cls()
+                    for (n, _), x in zip([(n, t) for f in cls.get_definition(conn.context) for n, t in f.items()], vals_for(v)):
+                        setattr(pkt, n, x)
+                lay = rp.layout(name, v)
+                ref_payload = rc.varint(rp.packet_id(name, v)) + b''.join(ref_enc(t, x) for (_, t), x in zip(lay, vals_for(v)))
+                ctx.case(('shared-packet', name, tuple(seq), v))
+                try:
+                    conn.write_packet(pkt, force=True)
+                    got = sock.getvalue()
+                except Exception as e:
+                    got = repr(e).encode()
+                if got != rc.varint(len(ref_payload)) + ref_payload:
+                    ctx.violation('one %s packet object written to connections of releases %r: on the release-%d connection the bytes are %s, '
+                                  'published %s' % (name, seq, v, got.hex()[:40], (rc.varint(len(ref_payload)) + ref_payload).hex()[:40]),
+                                  {'packet': name, 'releases': seq, 'release': v}, key={'kind': 'shared-packet', 'packet': name, 'release': v})
+                    break
+    # published clientbound ids through the dict the REAL play/login reactors build: the published id must lead to the
+    # published packet class (and to no other)
+    for v in rp.RELEASES:
+        if v in missing_rel:
+            continue
+        stub = type('Stub', (), {})()
+        stub.context = ConnectionContext(protocol_version=v)
+        for R, names in ((Cn.PlayingReactor, ('keep_alive_cb', 'join_game', 'chat_cb', 'position_look_cb', 'disconnect_play')),
+                         (Cn.LoginReactor, ('login_disconnect', 'encryption_request', 'login_success', 'set_compression'))):
+            try:
+                table = R(stub).clientbound_packets
+            except Exception as e:
+                ctx.violation('release %d: %s cannot be built: %r' % (v, R.__name__, e), {'release': v}, key={'kind': 'reactor-build', 'release': v})
+                continue
+            for name in names:
+                if rp.layout(name, v) is None:
+                    continue
+                want_cls = rp.PYCRAFT_NAME[name][1]
+                got_cls = table.get(rp.packet_id(name, v))
+                claim = sorted(c.__name__ for c in R.get_clientbound_packets(stub.context) if c.get_id(stub.context) == rp.packet_id(name, v))
+                ctx.case(('dispatch', v, name))
+                if got_cls is None or got_cls.__name__ != want_cls or claim != [want_cls]:
+                    ctx.violation('release %d: published id 0x%02X of %s is decoded by %s (classes claiming that id: %r)'
+                                  % (v, rp.packet_id(name, v), name, got_cls and got_cls.__name__, claim),
+                                  {'release': v, 'packet': name}, key={'kind': 'dispatch', 'release': v, 'packet': name})
     # a write that fails (a value that cannot be encoded, or the socket raising) must leave no trace in
     # the NEXT packet written by the same thread
     for v in rp.RELEASES:
